@@ -76,6 +76,11 @@ class Case:
             self.explicit = True
             return
         self.explicit = kind == "norton_rk"
+        # adaptive Runge-Kutta schemes: the step control uses a norm of the error estimate that depends on the number of
+        # components and on the frame; responses agree within the integration tolerance only (as in C41: 1000 x epsilon)
+        self.rk_eps = 1e-11 if (kind == "norton_rk" and spec.get("algo") in ("rk42", "rk54", "rkCastem")) else 0.0
+        if self.rk_eps:
+            self.pars += [("epsilon", self.rk_eps)]
         if kind in ("implicit_norton", "norton_creep", "brick_norton", "norton_rk"):
             theta = g.choice([0.5, 1.0, round(g.uniform(0.3, 1.0), 3)])
             if kind == "brick_norton":
@@ -133,7 +138,7 @@ class Case:
     def tol_strain(self, n):
         sc = max([float(np.max(np.abs(v))) for v in self.tens.values()] + [float(np.max(np.abs(self.de))), float(np.max(np.abs(self.eto0)))]
                  + [abs(x) for x in self.scal.values()])
-        return (0.0 if self.explicit else 200 * (n + 2) * EPS_CONV) + 256 * ULP * sc
+        return (2000 * self.rk_eps if self.explicit else 200 * (n + 2) * EPS_CONV) + 256 * ULP * sc
 
     def describe(self):
         d = {"behaviour": self.name, "young": self.young, "nu": self.nu, "dt": self.dt, "eto0": hexs(self.eto0), "deto": hexs(self.de),
